@@ -2482,7 +2482,7 @@ def verify_hyperparameters(lattice_sizes,
       if len(dims_set) != len(dimensions):
         raise ValueError("All dimensions within single joint unimodality "
                          "constraint must be distinct. "
-                         "Given: %s" % single_constraint)
+                         "Given: %s" % (single_constraint,))
 
   if weights_shape is not None:
     if len(weights_shape) != 2:
